@@ -120,6 +120,14 @@ Definition E_debug_enum_fmt : N := 4.
 Definition E_debug_field_fmt_with_container_fmt : N := 5.
 Definition E_union_no_attr : N := 6.
 
+Definition trait_eqb (a b : trait) : bool :=
+  match a, b with
+  | TrDisplay, TrDisplay | TrDebug, TrDebug | TrOctal, TrOctal | TrLowerHex, TrLowerHex
+  | TrUpperHex, TrUpperHex | TrPointer, TrPointer | TrBinary, TrBinary
+  | TrLowerExp, TrLowerExp | TrUpperExp, TrUpperExp => true
+  | _, _ => false
+  end.
+
 Section WithCC.
 Variable cc : CharClass.
 
@@ -164,6 +172,11 @@ Definition transparent_call_on_fields (a : fmt_attr) (fs : fields) : option (tex
     let hit := find (fun f => match e with
                                | EIdent i => ident_eqb i f || ident_eqb i (unraw f)
                                | EOther _ => false end) (fmt_args_idents fs) in
+    (* an explicit argument is a reference to the field: observable for Pointer only *)
+    let hit := match args a with
+               | [] => hit
+               | _ => if trait_eqb tr TrPointer then None else hit
+               end in
     Some (match hit with Some f => TField f | None => TRef e end, tr)
   end.
 
@@ -234,14 +247,6 @@ Definition contains_arg (a : fmt_attr) (name : ident) : bool :=
   match placeholders_by_arg a name with [] => false | _ => true end.
 
 (** [additional_deref_args]: fields named by a [Pointer] placeholder and not aliased by an argument *)
-Definition trait_eqb (a b : trait) : bool :=
-  match a, b with
-  | TrDisplay, TrDisplay | TrDebug, TrDebug | TrOctal, TrOctal | TrLowerHex, TrLowerHex
-  | TrUpperHex, TrUpperHex | TrPointer, TrPointer | TrBinary, TrBinary
-  | TrLowerExp, TrLowerExp | TrUpperExp, TrUpperExp => true
-  | _, _ => false
-  end.
-
 Definition additional_deref_args (a : fmt_attr) (fs : fields) : list ident :=
   let used := flat_map (fun p => match ph_arg p with
                                  | Syntax.Named n => if trait_eqb (ph_trait p) TrPointer then [n] else []
